@@ -700,7 +700,7 @@ pub fn run(args: &Args, report: &Report) -> (&'static str, bool, Vec<&'static st
     exhaustive(&ctx, &db_src);
 
     // 2. seeded random extension: larger collections and page sizes
-    let iters = args.by_tier(3_000u64, 60_000u64);
+    let iters = args.by_tier(3_000u64, 600_000u64);
     let mut rng = rng_for(args.seed, &[tag("c38-random")]);
     for it in 0..iters {
         let src: &dyn Source = if it % 2 == 0 { &vec_src } else { &db_src };
